@@ -159,6 +159,7 @@ class PathWalker:
             if s.value is not None:
                 e = ast.Expr(value=s.value)
                 ast.copy_location(e, s)
+                e._is_ret = True  # type: ignore[attr-defined]  # the expression of a return statement (evaluated once, here)
                 pre = list(self.on_stmt(e, st))
             for p in pre:
                 ex.returns.append((s, p))
